@@ -192,6 +192,7 @@ func (*c13Reg) HasSynced() bool { return true }
 type c13Informer struct {
 	r       *c13Run
 	g, gen  int
+	by      int // thread whose GetInformer created it (-1: none of the scenario's)
 	stopped bool
 	regs    map[int]*c13Reg
 }
@@ -290,7 +291,10 @@ func (c *c13Cache) GetInformer(_ context.Context, obj client.Object, _ ...cache.
 	if i, ok := c.r.infs[g]; ok {
 		return i, nil
 	}
-	i := &c13Informer{r: c.r, g: g, gen: c.r.genN, regs: map[int]*c13Reg{}}
+	i := &c13Informer{r: c.r, g: g, gen: c.r.genN, by: -1, regs: map[int]*c13Reg{}}
+	if t != nil {
+		i.by = t.idx
+	}
 	c.r.genN++
 	c.r.infs[g] = i
 	return i, nil
@@ -813,7 +817,26 @@ func (r *c13Run) afterDone(t *c13Thread, ghost map[int]int) {
 				}
 			}
 			if !found {
-				r.mon("C13:lost-watch-not-restarted", fmt.Sprintf("StartWatches(%d, %s/%d) returned nil but the controller has no handler on the existing informer of kind %d", op.N, w.T, w.G, w.G))
+				// did this very call re-create the informer for an EARLIER entry of ws and then skip w?
+				earlier := false
+				if inf, ok := r.infs[w.G]; ok && inf.by == t.idx {
+					for _, w0 := range op.Ws {
+						if w0 == w {
+							break
+						}
+						for _, reg := range inf.regs {
+							if reg.by == t.idx && reg.wt == w0.T && reg.g == w0.G {
+								earlier = true
+							}
+						}
+					}
+				}
+				if earlier {
+					// this very call re-created the informer (for another watch on the same kind) and then skipped this watch
+					r.mon("C13:watch-skipped-by-restarting-call", fmt.Sprintf("StartWatches(%d, ...) restarted the informer of kind %d for one watch and returned nil without a handler for %s/%d", op.N, w.G, w.T, w.G))
+				} else {
+					r.mon("C13:lost-watch-not-restarted", fmt.Sprintf("StartWatches(%d, %s/%d) returned nil but the controller has no handler on the existing informer of kind %d", op.N, w.T, w.G, w.G))
+				}
 			}
 		}
 	case "gc":
